@@ -203,11 +203,18 @@ where
                 #[cfg(feature = "detailed-trace")]
                 old_memo.has_value(),
             ) {
-                return ColdResult::Verified(if old_header.revisions.changed_at > revision {
-                    VerifyResult::changed()
-                } else {
-                    VerifyResult::unchanged_for_memo(&old_header.revisions)
-                });
+                // A provisional memo (verified because it belongs to the cycle iteration that is
+                // still running) may change in the next iteration: always assume it has changed,
+                // like the re-execution path below does.
+                return ColdResult::Verified(
+                    if old_header.revisions.changed_at > revision
+                        || old_header.may_be_provisional()
+                    {
+                        VerifyResult::changed()
+                    } else {
+                        VerifyResult::unchanged_for_memo(&old_header.revisions)
+                    },
+                );
             }
 
             // If the memo is not provisional, the generic continuation can check whether it has
